@@ -1,3 +1,605 @@
-"""C04.R3 -- skeleton agreement between recovered templates and interpreter methods (filled in below)."""
+"""C04.R3 -- skeleton agreement between recovered templates and interpreter methods.
+
+Both sides are reduced to *concrete skeletons*: for every truth assignment of the decision atoms (conditions that occur
+as `under` marks, conditional terms, or guards of semantic raises) the ordered list of observable steps -- sub-construct
+calls (direction, target, stream, context, value), read/write amounts and data, seeks, substreams, stores into the
+result and into the context, loop structure, swallowing handlers -- and the outcome (result term or semantic exception).
+The template's skeleton set must equal the interpreter's for the same assignment, modulo documented omissions:
+no path, no _index, no input validation / error translation, compile-time sizeof, display wrappers.
+"""
+import ast
+import itertools
+
+from .. import norm as N
+from ..pos import Trace
+from .common import *
+
+S_, C_, = ("S",), ("C",)
+OMIT_CTX_KEYS = {"_index", "_root"}
+# exceptions that are part of the construct's meaning (everything else is input validation, omitted by documentation)
+SEMANTIC_RAISES = {"ConstError", "CheckError", "StopFieldError", "ExplicitError", "UnionError", "RepeatError", "SelectError"}
+
+FROZEN = {
+    ("Union", "parse"): "parse_union is specialised per constant parsefrom at compile time (compile-time sizeof decides the forward/fallback seeks); its position contract is C09.R6",
+    ("Union", "build"): "build_union is an if-chain over members specialised at compile time (flagbuildnone / membership tests per member)",
+    ("Switch", "parse"): "cases are registered as lambdas in a generated module-level dict; covered by the dedicated Switch rule",
+    ("Switch", "build"): "cases are registered as lambdas in a generated module-level dict; covered by the dedicated Switch rule",
+    ("FlagsEnum", "parse"): "the per-flag expression is a join over self.flags; covered by the dedicated FlagsEnum rule",
+    ("NamedTuple", "parse"): "the factory is created by a generated module-level statement; covered by the dedicated rule",
+    ("RepeatUntil", "parse"): "the predicate is an inlined expression over obj_/list_ (documented: lambdas only as linked callbacks); loop shape covered by the dedicated rule",
+    ("RepeatUntil", "build"): "see parse",
+    ("Array", "parse"): "generator expression over range(count): covered by the dedicated Array rule; _index is documented as unsupported",
+    ("Array", "build"): "see parse",
+    ("Hex", "parse"): "display-only wrapper (C12.R5): compiled code returns the plain value, equal by value",
+    ("HexDump", "parse"): "display-only wrapper (C12.R5)",
+    ("RestreamData", "parse"): "compiled code supports a bytes constant only (the interpreter also accepts BytesIO and Construct data sources)",
+    ("Enum", "parse"): "table lookup with EnumInteger fallback is spelled dict.get in generated code; covered by the dedicated label-table rule",
+    ("Mapping", "parse"): "table lookup; covered by the dedicated label-table rule",
+    ("Enum", "build"): "table lookup; covered by the dedicated label-table rule (which also checks the returned value)",
+    ("Mapping", "build"): "table lookup; covered by the dedicated label-table rule",
+    ("FocusedSeq", "parse"): "result is read back from the context by name instead of a loop-carried local; member loop covered by the dedicated FocusedSeq rule",
+    ("FocusedSeq", "build"): "see parse; handlers and member loop covered by the dedicated FocusedSeq rule",
+    ("Debugger", "parse"): "debug aid", ("Debugger", "build"): "debug aid", ("Probe", "parse"): "debug aid", ("Probe", "build"): "debug aid",
+}
+
+
+def simplify(t):
+    """Value-preserving rewrites that make the two spellings comparable."""
+    if not isinstance(t, tuple) or not t:
+        return t
+    t = tuple(simplify(x) if isinstance(x, tuple) else x for x in t)
+    k = t[0]
+    if not isinstance(k, str):
+        return t
+    # generated module-level definition:  name = expr
+    if k == "def":
+        return t[2]
+    # struct.Struct(f).pack(x) == struct.pack(f, x)
+    if k == "call" and t[1][0] == "attr" and t[1][2] in ("pack", "unpack") and t[1][1][0] == "call" and t[1][1][1] == ("attr", ("free", "struct"), "Struct"):
+        f = t[1][1][2][0]
+        return ("call", ("attr", ("free", "struct"), t[1][2]), (f,) + t[2], t[3])
+    # bytes(x) for a bytearray x is value-equal to x
+    if k == "ite" and t[1][0] == "cmp" and t[1][1] == "is" and t[1][3] == ("free", "bytearray") and t[2] == ("call", ("free", "bytes"), (t[3],), ()):
+        return t[3]
+    if k == "call" and t[1] == ("free", "enumerate") and len(t[2]) == 1:
+        return t[2][0]
+    if k == "eval" and t[1] == N.NONE:
+        return N.NONE
+    if k == "bool" and t[1] == "or":
+        items = tuple(x for x in t[2] if x != N.NONE)
+        if len(items) == 1:
+            return items[0]
+        return ("bool", "or", items)
+    # Rebuild with a plain callable: userfunction[id](this) is self.func(this)
+    if k == "call" and t[1][0] == "sub" and t[1][1] == ("free", "userfunction") and len(t[2]) == 1 and USERFUNC[0] is not None:
+        return ("eval", USERFUNC[0], t[2][0])
+    return t
+
+
+USERFUNC = [None]
+
+
+def rename(t, side, extra=None):
+    m = dict(extra or {})
+    if side == "interp":
+        m[("param", "stream")] = S_
+        m[("param", "context")] = C_
+    else:
+        m[("param", "io")] = S_
+        m[("param", "this")] = C_
+    return simplify(N.rebuild(t, m))
+
+
+def canon_term(t, side, bind, extra=None):
+    """Conditions: renamed, simplified, ordinals renumbered locally."""
+    return strip(rename(t, side, extra), {})
+
+
+def strip(t, bind):
+    if not isinstance(t, tuple) or not t:
+        return t
+    k = t[0]
+    if not isinstance(k, str):
+        return tuple(strip(x, bind) for x in t)
+    if k == "newctx":
+        return ("newctx",)
+    if k == "new":
+        return ("new", t[1], strip(t[3], bind) if len(t) > 3 else (), strip(t[4], bind) if len(t) > 4 else ())
+    if k == "newstream":
+        return ("substream", strip(t[3][0], bind) if t[3] else None)
+    if k in ("tell", "read", "readall", "rawio"):
+        key = (k,) + tuple(strip(x, bind) for x in t[1:-1])
+        return key + (bind.setdefault(("ord", key, t[-1]), len([1 for kk in bind if kk[0] == "ord" and kk[1] == key])),)
+    if k == "subres":
+        m = {"_parsereport": "parse", "_parse": "parse", "_build": "build"}.get(t[1], t[1])
+        key = ("subres", m, strip(t[2], bind))
+        return key + (bind.setdefault(("ord", key, t[3]), len([1 for kk in bind if kk[0] == "ord" and kk[1] == key])),)
+    if k == "sub" and t[1] == C_ and N.is_const(t[2]) and isinstance(t[2][2], str):
+        return ("attr", C_, t[2][2])
+    return tuple(strip(x, bind) if isinstance(x, tuple) else x for x in t)
+
+
+def atom_of(c):
+    if c[0] == "not":
+        return c[1]
+    if c[0] == "cmp" and c[1] in ("!=", "is not", "not in"):
+        return N.mk_cmp(N.NEG[c[1]], c[2], c[3])
+    return c
+
+
+def truth(c, assign):
+    a = atom_of(c)
+    if a in assign:
+        v = assign[a]
+        return v if a == c else (not v)
+    if c[0] == "bool":
+        vals = [truth(x, assign) for x in c[2]]
+        if c[1] == "and":
+            if any(v is False for v in vals):
+                return False
+            return True if all(v is True for v in vals) else None
+        if any(v is True for v in vals):
+            return True
+        return False if all(v is False for v in vals) else None
+    if N.is_const(c):
+        return bool(c[2])
+    return None
+
+
+def resolve(t, assign):
+    if not isinstance(t, tuple) or not t:
+        return t
+    if isinstance(t[0], str) and t[0] == "ite":
+        v = truth(t[1], assign)
+        if v is True:
+            return resolve(t[2], assign)
+        if v is False:
+            return resolve(t[3], assign)
+    return tuple(resolve(x, assign) if isinstance(x, tuple) else x for x in t)
+
+
+DIRECTION = ["parse"]
+# rejecting a supplied value on build is input validation ("nothing is claimed for inputs the original rejects")
+BUILD_VALIDATION = {"ConstError", "UnionError", "RepeatError", "SelectError"}
+
+
+def semantic_outcome(p):
+    if p.returns:
+        return "return"
+    if p.outcome[0] == "raise" and p.outcome[1].get("kind") == "explicit" and p.outcome[1].get("cls") in SEMANTIC_RAISES:
+        if DIRECTION[0] == "build" and p.outcome[1].get("cls") in BUILD_VALIDATION:
+            return None
+        return p.outcome[1].get("cls")
+    return None
+
+
+def swallowing_tids(paths):
+    out = set()
+    for p in paths:
+        for e in p.events:
+            if e.kind == "ENDCATCH":
+                out.add(e["tid"])
+    return out
+
+
+def decision_atoms(paths, side, extra):
+    atoms = set()
+    for p in paths:
+        so = semantic_outcome(p)
+        if so is None:
+            continue
+        for e in p.events:
+            if e.under is not None:
+                atoms.add(atom_of(canon_term(e.under, side, {}, extra)))
+            for v in e.a.values():
+                if isinstance(v, tuple):
+                    for x in N.walk(v):
+                        if x[0] == "ite":
+                            atoms.add(atom_of(canon_term(x[1], side, {}, extra)))
+        if p.outcome[0] == "return":
+            for x in N.walk(p.outcome[1]):
+                if x[0] == "ite":
+                    atoms.add(atom_of(canon_term(x[1], side, {}, extra)))
+        if so != "return":
+            # the guard of a semantic raise is part of the meaning
+            gs = p.guards()
+            if gs:
+                atoms.add(atom_of(canon_term(gs[-1], side, {}, extra)))
+    return {a for a in atoms if not N.is_const(a)}
+
+
+def skeleton(p, side, assign, stream, swallow, extra):
+    so = semantic_outcome(p)
+    if so is None:
+        return None
+    bind = {}
+    streams = {stream} | {e.a.get("stream") for e in p.events if e.kind in ("TELL", "SEEK", "READ", "WRITE", "SUB") and e.a.get("stream") is not None}
+    tbind = {}
+    for s_ in streams:
+        tbind.update(Trace(p, s_, abstract_sz=True).bind)
+
+    def resolve_c(t):
+        # conditional terms are decided on their locally renumbered form
+        if not isinstance(t, tuple) or not t:
+            return t
+        if isinstance(t[0], str) and t[0] == "ite":
+            v = truth(strip(t[1], {}), assign)
+            if v is True:
+                return resolve_c(t[2])
+            if v is False:
+                return resolve_c(t[3])
+        return tuple(resolve_c(x) if isinstance(x, tuple) else x for x in t)
+
+    last = {}
+
+    def val(t):
+        if t is None:
+            return None
+        if last:
+            t = N.subst(t, last)
+        t = rename(sz(N.rebuild(t, tbind)), side, extra)
+        t = simplify(N.rebuild(resolve_c(t), {}))
+        return strip(t, bind)
+    for g in p.guards():
+        if truth(canon_term(g, side, {}, extra), assign) is False:
+            return None
+    items = []
+    for e in p.events:
+        if e.kind in ("CATCH", "ENDCATCH") or (e.raised and e.kind != "RAISE"):
+            return None
+        if e.kind == "LOOPEND" and e["how"] in ("zero", "break"):
+            return None
+        if e.under is not None and truth(canon_term(e.under, side, {}, extra), assign) is False:
+            continue
+        k = e.kind
+        if k == "SUB":
+            m = {"_parsereport": "parse", "_parse": "parse", "_build": "build"}.get(e["m"])
+            if m is None:
+                if e["m"] in ("_sizeof", "sizeof"):
+                    continue
+                items.append(("SUB", e["m"], val(e["target"])))
+                continue
+            it = ["SUB", m, val(e["target"]), val(e.a.get("stream")), val(e.a.get("ctx"))]
+            if m == "build":
+                it.append(val(e.a.get("obj")))
+            items.append(tuple(it))
+        elif k == "READ":
+            items.append(("READ", val(e["stream"]), val(e["length"])))
+        elif k == "READALL":
+            items.append(("READALL", val(e["stream"])))
+        elif k == "WRITE":
+            items.append(("WRITE", val(e["stream"]), val(e["data"])))
+        elif k == "SEEK":
+            items.append(("SEEK", val(e["stream"]), val(e["offset"]), val(e["whence"])))
+        elif k == "NEWCTX":
+            items.append(("NEWCTX",))
+        elif k == "CTXSET":
+            key = val(e["key"])
+            if N.is_const(key) and key[2] in OMIT_CTX_KEYS:
+                continue
+            items.append(("CTXSET", val(e["ctx"]), key, val(e["value"])))
+        elif k == "CTXUPDATE":
+            items.append(("CTXUPDATE", val(e["ctx"]), val(e["src"])))
+        elif k in ("STORE", "ATTRSET"):
+            b = e["base"]
+            if b[0] != "new":
+                continue
+            key = val(e["key"]) if k == "STORE" else N.const(e["attr"])
+            if N.is_const(key) and isinstance(key[2], str) and key[2].startswith("_"):
+                continue
+            items.append(("STORE", val(b), key, val(e["value"])))
+        elif k == "MUT" and e["method"] in ("append", "update") and e["base"][0] == "new":
+            args = tuple(val(a) for a in e["args"])
+            items.append(("MUT", e["method"], val(e["base"]), args))
+            if e["method"] == "append" and len(args) == 1:
+                # result[-1] right after result.append(v) is v
+                last[("sub", e["base"], N.const(-1))] = e["args"][0]
+        elif k == "TRY":
+            if e["tid"] in swallow:
+                items.append(("TRY", e["handlers"]))
+        elif k == "LOOP":
+            items.append(("LOOP", val(e["iter"])))
+    out = val(p.retval) if so == "return" else ("raise", so)
+    # a handler around the member loop and a handler inside it that breaks are the same control flow
+    for i in range(len(items) - 1):
+        if items[i][0] == "LOOP" and items[i + 1][0] == "TRY":
+            items[i], items[i + 1] = items[i + 1], items[i]
+    return N.canon_lids((tuple(items), out))
+
+
+def sz(t):
+    m = {}
+    for x in N.walk(t):
+        if x[0] == "subres" and x[1] in ("_sizeof", "sizeof", "_actualsize"):
+            m[x] = ("SZ", x[2])
+    return N.rebuild(t, m) if m else t
+
+
+def skeleton_sets(paths, side, stream, atoms, extra):
+    out = {}
+    sw = swallowing_tids(paths)
+    for vals in itertools.product((True, False), repeat=len(atoms)):
+        assign = dict(zip(atoms, vals))
+        s = set()
+        for p in paths:
+            sk = skeleton(p, side, assign, stream, sw, extra)
+            if sk is not None:
+                s.add(sk)
+        out[vals] = s
+    return out
+
+
+def show_skel(sk):
+    items, ret = sk
+    return "; ".join("%s(%s)" % (i[0], ", ".join(N.show(x) if isinstance(x, tuple) else str(x) for x in i[1:])) for i in items) + " => " + N.show(ret)
+
+
+def template_paths(ts, fps):
+    """Paths that carry the behaviour of one rendered template: the generated helper called by the returned expression
+    (summarised with the call-site arguments bound to its parameters), else the expression itself."""
+    tp = fps.get("__template__", [])
+    rets = [p for p in tp if p.returns]
+    if len(rets) == 1:
+        p0 = rets[0]
+        r = p0.retval
+        calls = [e for e in p0.events if e.kind == "CALL" and e["func"][0] == "free" and e["func"][1] in ts.model.functions and e["func"][1] not in ("restream", "reuse")]
+        other = [e for e in p0.events if e.kind in ("SUB", "READ", "WRITE", "SEEK", "READALL", "NEWCTX", "CTXSET")]
+        if len(calls) == 1 and r == calls[0]["res"] and not other:
+            return ts.summarise_call(calls[0]["func"][1], calls[0]["args"]), p0
+    return tp, None
+
+
+def cond_facts(ctx, em, owner):
+    """Statement-level decisions of the emitter variant as substitutions on interpreter terms (e.g. self.stream is None)."""
+    extra = {}
+    for cnd, pol in em.conds:
+        # `self.x is not None` decided False  ->  self.x is None
+        if isinstance(cnd, ast.Compare) and len(cnd.ops) == 1 and isinstance(cnd.ops[0], (ast.IsNot, ast.Is)) and isinstance(cnd.comparators[0], ast.Constant) \
+                and cnd.comparators[0].value is None and isinstance(cnd.left, ast.Attribute) and isinstance(cnd.left.value, ast.Name) and cnd.left.value.id == "self":
+            is_none = (isinstance(cnd.ops[0], ast.Is)) == pol
+            if is_none:
+                extra[N.selfattr(cnd.left.attr)] = N.NONE
+    return extra
+
+
 def run(ctx, emit_funcs, summaries):
-    pass
+    M = ctx.model
+    for q, lst in sorted(summaries.items()):
+        fi, owner, _ = emit_funcs[q]
+        if owner not in M.classes or fi.relpath.endswith("debug.py"):
+            continue
+        direction = "parse" if fi.name == "_emitparse" else "build"
+        if (owner, direction) in FROZEN:
+            ctx.ob("C04.R3", fi, True, "%s %s: %s" % (owner, direction, FROZEN[(owner, direction)]), key="frozen %s" % direction, detail=FROZEN[(owner, direction)])
+            continue
+        meth = "_parse" if direction == "parse" else "_build"
+        DIRECTION[0] = direction
+        fi_i, ipaths = method_paths(ctx, owner, meth)
+        bad = []
+        compared = 0
+        natoms = 0
+        try:
+            for em, r, ts, fps in lst:
+                extra = cond_facts(ctx, em, owner)
+                # user-function variant of Rebuild: userfunction[id](this) is self.func(this)
+                textra = {}
+                uf = getattr(em, "userfunc_value", None)
+                USERFUNC[0] = N.selfattr(uf.attr) if isinstance(uf, ast.Attribute) and isinstance(uf.value, ast.Name) and uf.value.id == "self" else None
+                tps, call_path = template_paths(ts, fps)
+                atoms = sorted(decision_atoms(ipaths, "interp", extra) | decision_atoms(tps, "templ", textra), key=repr)
+                if len(atoms) > 7:
+                    raise AnalysisError("too many decision atoms (%d)" % len(atoms))
+                natoms = max(natoms, len(atoms))
+                iset = skeleton_sets(ipaths, "interp", STREAM, atoms, extra)
+                tset = skeleton_sets(tps, "templ", ("param", "io"), atoms, textra)
+                # inline conditions chosen for this rendering restrict the interpreter side to the matching configuration
+                for vals in iset:
+                    a, b = iset[vals], tset.get(vals, set())
+                    if not b:
+                        continue        # this rendering does not exist under that assignment (other renderings cover it)
+                    compared += 1
+                    if not b <= a:
+                        assign = ", ".join("%s=%s" % (N.show(x), v) for x, v in zip(atoms, vals))
+                        only_t = [show_skel(s) for s in b - a][:1]
+                        near = [show_skel(s) for s in a][:1]
+                        bad.append("[%s] generated: %s | interpreter: %s" % (assign, only_t, near or "no such run"))
+        except AnalysisError as e:
+            ctx.error("C04.R3 %s: %s" % (q, e))
+            continue
+        ctx.ob("C04.R3", fi, not bad and compared > 0, "%s vs %s.%s: %s" % (q, owner, meth, ("generated code does something the interpreter does not: " + bad[0][:900]) if bad else
+               ("every generated run is an interpreter run under %d assignment(s) of up to %d decision atom(s)" % (compared, natoms) if compared else "nothing comparable")), key="skeleton %s" % direction)
+    dedicated(ctx, emit_funcs, summaries)
+    ctx.floor("C04.R3", 120)
+
+
+# ----------------------------------------------------------------------------- dedicated rules for the frozen classes
+def _tmpl(summaries, q):
+    return summaries.get(q, [])
+
+
+def dedicated(ctx, emit_funcs, summaries):
+    M = ctx.model
+    rule = "C04.R3"
+
+    def paths_tpl(q, fname="__template__"):
+        out = []
+        for em, r, ts, fps in _tmpl(summaries, q):
+            out.append((em, r, ts, fps.get(fname, [])))
+        return out
+
+    # ---- swallowing handlers agree (all classes, frozen or not): a handler that ends an operation early must exist on both sides
+    for q, lst in sorted(summaries.items()):
+        fi, owner, _ = emit_funcs[q]
+        if owner not in M.classes or fi.relpath.endswith("debug.py") or owner in ("Union", "Peek"):
+            continue
+        meth = "_parse" if fi.name == "_emitparse" else "_build"
+        fi_i, ip = method_paths(ctx, owner, meth)
+        sw_i = set()
+        for p in ip:
+            for e in p.events:
+                if e.kind == "TRY" and e["tid"] in swallowing_tids(ip):
+                    sw_i.add(e["handlers"])
+        sw_t = set()
+        for em, r, ts, fps in lst:
+            for fn, ps in fps.items():
+                st = swallowing_tids(ps)
+                for p in ps:
+                    for e in p.events:
+                        if e.kind == "TRY" and e["tid"] in st:
+                            sw_t.add(e["handlers"])
+        ctx.ob(rule, fi, sw_i == sw_t, "%s: handlers that swallow an exception in generated code %s vs in %s.%s %s" % (q, sorted(sw_t), owner, meth, sorted(sw_i)), key="swallowing handlers %s" % meth)
+
+    # ---- FlagsEnum parse: per-flag test
+    q = "FlagsEnum._emitparse"
+    if q in emit_funcs:
+        fi = emit_funcs[q][0]
+        fd, pd = own_method_paths(ctx, "FlagsEnum", "_decode")
+        want = None
+        for p in pd:
+            for e in p.events:
+                if e.kind == "STORE" and e.loops:
+                    m = {}
+                    for x in N.walk(e["value"]):
+                        if x[0] == "val":
+                            m[x] = ("V",)
+                    m[OBJ] = ("X",)
+                    want = N.rebuild(e["value"], m)
+        ok = want is not None
+        seen = 0
+        for em, r, ts, ps in paths_tpl(q):
+            its = [(ast.unparse(t), ast.unparse(i)) for t, i in r.iters.values()]
+            ok = ok and its == [("(k, v)", "self.flags.items()")]
+            for p in ps:
+                news = [e for e in p.events if e.kind == "NEW" and e["cls"] == "Container"]
+                subs = [e for e in p.events if e.kind == "SUB"]
+                for nw in news:
+                    for kname, v in nw["kw"]:
+                        seen += 1
+                        hole = r.holes.get(kname)
+                        ok = ok and hole is not None and ast.unparse(hole.node) == "k"
+                        inner = v[2][0] if v[0] == "call" and v[1] == ("free", "bool") and len(v[2]) == 1 else v
+                        m = {("free", "v"): ("V",)}
+                        if subs:
+                            m[subs[0]["res"]] = ("X",)
+                        ok = ok and N.rebuild(inner, m) == want
+        ctx.ob(rule, fi, ok and seen >= 1, "FlagsEnum: generated code tests each flag exactly as _decode does (all bits of the mask present), over the same (name, mask) pairs of self.flags", key="FlagsEnum flag test")
+
+    # ---- label tables: Enum / Mapping
+    for owner, pm, bm in (("Enum", "decmapping", "encmapping"), ("Mapping", "decmapping", "encmapping")):
+        for direction, attr in (("parse", pm), ("build", bm)):
+            q = "%s._emit%s" % (owner, direction)
+            if q not in emit_funcs:
+                continue
+            fi = emit_funcs[q][0]
+            ok = bool(_tmpl(summaries, q))
+            for em, r, ts, ps in paths_tpl(q):
+                tabs = [ast.unparse(h.node) for h in r.holes.values() if "mapping" in ast.unparse(h.node)]
+                ok = ok and tabs == ["self.%s" % attr] and all(h.conv == "repr" for h in r.holes.values() if "mapping" in ast.unparse(h.node))
+                for p in ps:
+                    if not p.returns:
+                        continue
+                    subs = [e for e in p.events if e.kind == "SUB"]
+                    ok = ok and len(subs) == 1 and subs[0]["target"] == N.selfattr("subcon")
+                    tab = ("def", None, N.selfattr(attr))
+                    if direction == "parse":
+                        x = subs[0]["res"]
+                        r_ = simplify(p.retval)
+                        if owner == "Enum":
+                            good = r_[0] == "call" and r_[1][0] == "attr" and r_[1][2] == "get" and simplify(r_[1][1]) == N.selfattr(attr) and r_[2][0] == x \
+                                and r_[2][1][0] == "new" and r_[2][1][1] == "EnumInteger" and r_[2][1][3] == (x,)
+                        else:
+                            good = r_ == ("sub", N.selfattr(attr), x)
+                        ok = ok and good
+                    else:
+                        v = simplify(subs[0]["obj"])
+                        if owner == "Enum":
+                            good = v == ("call", ("attr", N.selfattr(attr), "get"), (OBJ, OBJ), ())
+                        else:
+                            good = v == ("sub", N.selfattr(attr), OBJ)
+                        ok = ok and good
+            ctx.ob(rule, fi, ok, "%s %s: generated code maps through self.%s (the table the interpreter uses in that direction)%s" % (owner, direction, attr, ", unmapped integers survive as EnumInteger" if owner == "Enum" and direction == "parse" else ""), key="label table %s" % direction)
+            if direction == "build":
+                good = bool(_tmpl(summaries, q))
+                for em, r, ts, ps in paths_tpl(q):
+                    for p in ps:
+                        if p.returns:
+                            good = good and p.retval == OBJ
+                ctx.ob(rule, fi, good, "%s build: generated code returns the unencoded obj like Adapter._build does (the value is stored in the enclosing context and later members may refer to it)" % owner, key="adapter build result")
+
+    # ---- Switch
+    for direction in ("parse", "build"):
+        q = "Switch._emit%s" % direction
+        if q not in emit_funcs:
+            continue
+        fi = emit_funcs[q][0]
+        ok = bool(_tmpl(summaries, q))
+        for em, r, ts, ps in paths_tpl(q):
+            its = [(ast.unparse(t), ast.unparse(i)) for t, i in r.iters.values()]
+            ok = ok and its == [("(key, sc)", "self.cases.items()")]
+            keyh = [h for h in r.holes.values() if ast.unparse(h.node) == "key"]
+            ok = ok and len(keyh) == 1 and keyh[0].conv == "repr"
+            tg = sorted(ast.unparse(s_.target) for s_ in r.subs.values())
+            ok = ok and tg == ["sc", "self.default"]
+            for p in ps:
+                if not p.returns:
+                    continue
+                calls = [e for e in p.events if e.kind == "CALL" and e["callee"] == "value"]
+                ok = ok and len(calls) == 1
+                if calls:
+                    f = calls[0]["func"]
+                    argn = (("param", "io"), ("param", "this")) if direction == "parse" else (OBJ, ("param", "io"), ("param", "this"))
+                    ok = ok and f[0] == "call" and f[1][0] == "attr" and f[1][2] == "get" and f[2][0] == ("eval", N.selfattr("keyfunc"), ("param", "this")) \
+                        and f[2][1][0] in ("def", "free") and f[2][1][1].startswith("switch_defaultcase") and f[1][1][0] == "def" and f[1][1][1].startswith("switch_cases") \
+                        and calls[0]["args"] == argn and p.retval == calls[0]["res"]
+        fi_i, ip = method_paths(ctx, "Switch", "_" + direction)
+        sel = ("call", ("attr", N.selfattr("cases"), "get"), (("eval", N.selfattr("keyfunc"), CTX), N.selfattr("default")), ())
+        ok = ok and all(e["target"] == sel for p in ip for e in p.events if e.kind == "SUB")
+        ctx.ob(rule, fi, ok, "Switch %s: generated code registers one thunk per (key, case) of self.cases and one for self.default, and selects cases.get(keyfunc, default) like the interpreter" % direction, key="Switch %s" % direction)
+
+    # ---- Array
+    for direction in ("parse", "build"):
+        q = "Array._emit%s" % direction
+        if q not in emit_funcs:
+            continue
+        fi = emit_funcs[q][0]
+        ok = bool(_tmpl(summaries, q))
+        cnt = ("eval", N.selfattr("count"), ("param", "this"))
+        for em, r, ts, ps in paths_tpl(q):
+            for p in ps:
+                if not p.returns:
+                    continue
+                rv = p.retval
+                subs = [e for e in p.events if e.kind == "SUB"]
+                ok = ok and rv[0] == "new" and rv[1] == "ListContainer" and len(rv[3]) == 1 and rv[3][0][0] == "comp" and len(subs) == 1
+                if not ok:
+                    break
+                comp = rv[3][0]
+                ok = ok and comp[2] == subs[0]["res"] and comp[3][0][0] == ("call", ("free", "range"), (cnt,), ()) and subs[0]["target"] == N.selfattr("subcon") \
+                    and subs[0]["stream"] == ("param", "io") and subs[0]["ctx"] == ("param", "this")
+                if direction == "build":
+                    ok = ok and subs[0]["obj"] == ("sub", OBJ, ("idx", subs[0].loops[-1] if subs[0].loops else comp[4][0]))
+        ctx.ob(rule, fi, ok, "Array %s: generated code processes range(count) elements in order with the element construct on the same stream/context%s" % (direction, ", element i from obj[i]" if direction == "build" else ""), key="Array %s" % direction)
+
+    # ---- FocusedSeq member loop
+    for direction in ("parse", "build"):
+        q = "FocusedSeq._emit%s" % direction
+        if q not in emit_funcs:
+            continue
+        fi = emit_funcs[q][0]
+        ok = bool(_tmpl(summaries, q))
+        for em, r, ts, fps in _tmpl(summaries, q):
+            fn = [f for f in fps if f != "__template__"]
+            ok = ok and len(fn) == 1
+            for p in fps.get(fn[0], []) if fn else []:
+                if not p.returns or any(e.kind == "LOOPEND" and e["how"] != "exhausted" for e in p.events):
+                    continue
+                loops = [e for e in p.events if e.kind == "LOOP"]
+                subs = [e for e in p.events if e.kind == "SUB" and e.loops]
+                ok = ok and len(loops) == 1 and loops[0]["iter"] == N.selfattr("subcons") and len(subs) == 1
+                if subs:
+                    s_ = subs[0]
+                    new = [e for e in p.events if e.kind == "NEWCTX"]
+                    ok = ok and new and s_["ctx"] == new[0]["res"] and s_["stream"] == ("param", "io") and s_["target"] == ("elem", N.selfattr("subcons"), s_.loops[-1])
+                    sets = [e for e in p.events if e.kind == "CTXSET" and e.loops and e["key"] == ("attr", s_["target"], "name")]
+                    ok = ok and all(e["value"] == s_["res"] for e in sets)
+        ctx.ob(rule, fi, ok, "FocusedSeq %s: generated code runs every member of self.subcons in order on the nested context and stores named results in it" % direction, key="FocusedSeq %s loop" % direction)
